@@ -71,6 +71,10 @@ func main() {
 				extra = append(extra, t)
 			}
 			c.Reqs = append(c.Reqs, extra...)
+			if r.IntN(3) == 0 {
+				c.Churn = r.Uint64() | 1
+				c.ChurnMethods = []string{"PUT", "DELETE", "BAR"}
+			}
 			check(run, c)
 		}
 	})
@@ -121,6 +125,13 @@ func check(run *kit.Run, c route.Case) {
 	})
 	if b == nil {
 		return
+	}
+	if b.Churned > 0 {
+		run.Count("cases_with_delete_churn", 1)
+		run.Count("churn_routes_added_and_deleted", int64(b.Churned))
+	}
+	if b.ChurnErr != "" {
+		run.Violate("churn|"+c.RoutesString(), b.ChurnErr, c)
 	}
 	opt405, optOptions := has(c.Global, "405"), has(c.Global, "options")
 	for i, q := range c.Reqs {
